@@ -61,18 +61,26 @@ CHECKS = {
             "OverflowError/ZeroDivisionError/complex pow are searched for by the oracle, not proved absent; libm agreement CPython/Lean Float; "
             "random.gauss(mu,sigma)=mu+z*sigma; the two individuals of a crossover are distinct objects.",
             "Lean 4 proof over a RealLike-polymorphic model + forced-tape differential correspondence (Float) + oracle"),
-    "C04": ("partial",
-            "Quadratic sort: full Lean proof (C04.dominance_strict_partial_order, exists_nondominated, peel_partition, peel_front_iff_depth, "
-            "sortStd_eq_peel, sortStd_front_iff_depth, sortStd_every_individual_once, sortStd_subperm, sortStd_equal_fitness_same_front, sortStd_zero, "
-            "sortStd_first_front_only, leading_spec) that the model of sortNondominated returns exactly the Pareto ranking, the leading fronts needed to "
-            "reach k, every input once. Divide-and-conquer sort: certificate theorem C04.ranking_unique / checkCert_correct / checkRanking_sound (a rank "
-            "function satisfying two local conditions IS the dominance depth) and the proved checker is run on every output of the real "
-            "sortLogNondominated; of its transcription (model B) termination (sortLog_terminates), partition and truncation are proved (sortLog_partition_partial, sortLog_truncation_partial); "
-            "sortLog_eq_sortStd_Statement (its ranks are depths) stays an unproved def. Both procedures are diffed against the models on all populations "
-            "n<=4 over {0,1,2}^m (m<=3), every k, both flags, plus random n<=40, m<=6; brute-force peeling is the oracle.",
-            TB + "partial: the algorithmic correctness of the log-time sort is certified per run by a proved-sound checker, not proved for all inputs; "
-            "exact regime (integer/dyadic fitnesses); fronts compared as sorted input indices (dict iteration order not modelled).",
-            "Lean 4 proof (quadratic sort) + proved certificate checker run on every output (log sort) + differential correspondence + oracle"),
+    "C04": ("full",
+            "Both procedures are proved equal to the peeling specification for every population of equal-length fitnesses over any ordered field and every k: "
+            "quadratic sort (C04.sortStd_eq_peel, sortStd_front_iff_depth, sortStd_every_individual_once, sortStd_subperm, sortStd_equal_fitness_same_front, "
+            "sortStd_zero, sortStd_first_front_only) and the divide-and-conquer sort (sortLog_terminates, sweepA_correct, sweepB_correct, sortNDHelperA_correct, "
+            "sortNDHelperB_correct, sortLog_eq_peel, sortLog_front_iff_depth, sortLog_first_front_only), hence sortLog_eq_sortStd (the former "
+            "sortLog_eq_sortStd_Statement, now a theorem); spec theorems dominance_strict_partial_order, exists_nondominated, peel_partition, peel_front_iff_depth, "
+            "leading_spec; the certificate theorem ranking_unique / checkRanking_sound is kept and its checker still runs on every output of both real procedures "
+            "as independent evidence. Both procedures are diffed against the models on all populations n<=4 over {0,1,2}^m (m<=3), every k, both flags, plus random "
+            "n<=40, m<=6; brute-force peeling is the oracle.",
+            TB + "exact regime (integer/dyadic fitnesses); log-time sort for m >= 2 objectives and non-empty populations (as the code requires); fronts compared as "
+            "sorted input indices (dict iteration order not modelled).",
+            "Lean 4 proof of both sorting procedures against the peeling specification + proved certificate checker + differential correspondence + oracle"),
+    "C05": ("full",
+            "Lean theorems C05.* (selection_size, selection_subperm, front_priority, one_partial_front_crowding_cut, backend_agnostic, crowding_spec, "
+            "selNSGA2_standard, selNSGA2_log) hold over every ordered field: both sorting back-ends provably deliver fronts meeting C04's specification "
+            "(C04.sortStd_eq_peel, C04.sortLog_eq_peel), and the cut satisfies the contract for any such fronts; crowding_spec shows assignCrowdingDist equals the "
+            "statement's formula on pairwise-distinct fronts. The correspondence replays the cut on the implementation's fronts and float distances, compares "
+            "distances exactly or within 1e-9, and whole selNSGA2 on an exact family; the contract is evaluated as an oracle on the returned objects for both nd values.",
+            TB + "float distances are compared with tolerance outside the exact family; nd='log' for m >= 2 objectives.",
+            "Lean 4 proof over a hand-written model + differential correspondence + oracle"),
     "C06": ("full",
             "Lean theorems (C06.k0*, length_*/refs_* for all eleven operators, best_sorted/worst_sorted, tournament_winner(+total), double_winner_size_first/fitness_first, "
             "roulette_share(+total, length), sus_total/sus_counts (0<r<1)/sus_counts_r0 (boundary draw, F13), lexicase_tol/lexicase_pareto/epsilon_lexicase_tol/lexicase_step_total, "
@@ -112,7 +120,7 @@ CHECKS = {
             "transcribes the list-level code of deap.gp and is diffed against it by replaying the recorded random draws on 9 primitive sets x all "
             "min<=max in 0..6 x all operators (bare and under staticLimit); the statement is evaluated as an independent oracle.",
             TB + "list slicing/slice assignment/issubclass; randint/randrange/choice contracts; theorems speak about every result the generators return "
-            "(that a long-enough tape always yields a result is not proved).",
+            "and gen_total/cx_total/cxlb_total/mut*_total prove that every well-typed tape of the stated length yields a result (no IndexError, termination); staticLimit totality not covered.",
             "Lean 4 proof over a hand-written model + tape-replay correspondence + oracle"),
     "C12": ("partial",
             "Lean theorems (C12.str_eq_render, compileSrc_eq, tokens_render, fromString_eq_reparse, roundtrip, eval_roundtrip, adf_eval(+_two)) prove for all "
